@@ -15,34 +15,48 @@ from .common import Ctx, Driver
 MANIFEST = dict(
     text=("Lean theorems, for all trees (own inductive tree type: tags with name, prefix, ordered attributes with str/list/None "
           "values, can_be_empty_element, hidden; strings of the 13 classes), all formatters (substitution function, void prefix, "
-          "cdata-containing tags, empty-attributes-are-booleans as parameters) and all class tables: decode() — the explicit tag stack "
-          "of _event_stream over the pre-order element chain with parent links, _format_tag, output_ready, piece join — equals the "
-          "structural recursion renderSpec (decode_eq_render, decode_contents_eq; net effect of a balanced block on the stack "
-          "machine); an element with children is never rendered in the empty-element form, whatever can_be_empty_element and the "
-          "void prefix are (never_empty_with_children, childless_forms); a string whose parent is a cdata-containing tag is "
-          "emitted unchanged under every substitution function (cdata_verbatim), and on the generated registries every HTML "
-          "formatter has exactly script/style as such tags (registry_cdata_tags, cdata_verbatim_live); 'minimal'/'html' write "
-          "<x/> (void_prefix_slash). Round trip at the event level: for every Representable forest (explicit decidable predicate), "
-          "every builder configuration and formatter, feeding the events of the rendered text to the mirror of bs4's parser side "
+          "cdata-containing tags, empty-attributes-are-booleans as parameters) and all class tables. RENDERING: _event_stream — the "
+          "explicit tag stack over the pre-order element chain with parent links — yields exactly the structural event list "
+          "(event_stream_eq_spec; net effect of a balanced block), hence decode()/decode_contents() = the structural recursion "
+          "(decode_eq_render, decode_contents_eq); for every element of every tree an EMPTY event / void form only for a childless "
+          "element that can be empty, START+END without void slash for any element with children (events_classified, "
+          "never_empty_everywhere, never_empty_with_children, childless_forms); every string child of a cdata-containing element is "
+          "emitted verbatim under every substitution function (cdata_verbatim, cdata_verbatim_children) and every HTML registry "
+          "formatter has exactly script/style as such (registry_cdata_tags, cdata_verbatim_live); formatter resolution mirrored "
+          "(formatter_for_name, _is_xml: isXml_eq_spec, registry_lookup_live over both whole registries, formatter_for_callable, "
+          "decode_keyerror, decodeTop_eq) and the XML flavour substitutes everywhere (xml_substitutes_everywhere); the generated class "
+          "table is the markup the re-parse model presupposes, all 13 classes (class_table_live). ROUND TRIP at the event level: for "
+          "every Representable forest (explicit decidable predicate), every builder configuration and formatter, bs4's parser side "
           "(handle_starttag/startendtag/endtag with already_closed_empty_element, endData whitespace rule, string containers, "
-          "_popToTag, cdata-list attributes) builds exactly normaliseL — adjacent text merged, whitespace-only runs normalised, "
-          "newline text after a doctype, attributes sorted/None->''/multi-valued split (reparse_roundtrip); the second re-parse "
-          "builds normalise(normalise t), so the second round trip is a fixpoint iff the executable normal form is idempotent at t "
-          "(second_roundtrip, second_roundtrip_fixpoint_iff; evaluated per case); the whitespace rule is idempotent (wsRule_idem) and "
-          "chunking of character data is irrelevant (txt_chunking); unrestricted idempotence of the normal form is refuted by a "
-          "decided witness (doctype_text_not_fixpoint = known finding). "
-          "Tie: differential runs on parsed and API-built/edited trees of both flavours under all registry formatters, every element "
-          "as start; the real html.parser event stream of the real rendered text against emitR; the real re-parse against "
-          "build/normaliseL; independent Python oracle of the round trip, the second round trip, the empty-element rule and "
-          "script/style verbatim; exhaustive small trees of identical tags for the `!=` stack comparison."),
+          "_popToTag, cdata-list attributes) fed the events of the rendered text builds exactly normaliseL (reparse_roundtrip); with "
+          "the written text read back through C09's reader models the same holds unconditionally for 'minimal' and 'html' in both "
+          "flavours (minimal_reader_laws, html_reader_laws, reparse_roundtrip_rd, reparse_roundtrip_registry; this model's "
+          "substitute_xml/quoted_attribute_value are C09's: subst_quote_are_c09). NORMAL FORM: same elements, attributes (for dict "
+          "attributes: sorted keys, written text, multi-valued split), visible text, special strings (same_elements, "
+          "same_attributes, same_text, same_specials, wsRule_only_whitespace, wsRule_idem, txt_chunking). SECOND ROUND TRIP: the "
+          "normal form is idempotent for every forest that is DoctypeStable (explicit decidable predicate), every formatter and "
+          "every configuration satisfying ConfigOK, and for no other forest: complete characterisation normalise_idem_iff "
+          "(normalise_not_idem via the exact growth count second_normalisation_growth) — attributes for all attribute lists "
+          "(normalise_idem, normAttrs_idem, "
+          "live_config_ok, second_roundtrip, second_roundtrip_fixpoint(_iff), representable_normal_form, registry_cdata_agree, "
+          "parse_render_idempotent); without DoctypeStable it is false by a decided "
+          "witness (doctype_text_not_fixpoint = known finding). Tie: differential runs on parsed and API-built/edited trees of both "
+          "flavours (edits interleaved with renderings) under all registry formatters with the substitution functions computed by "
+          "the model, every element as start; decode(formatter=arg) for registry keys incl. unknown ones, callables and Formatter "
+          "objects under known_xml chains; the real html.parser event stream of the real rendered text against emitR; the real "
+          "re-parse against build/normaliseL and the second against normalise∘normalise; independent Python oracle of the round "
+          "trip, the second round trip, the empty-element rule, script/style verbatim and detached rendering; exhaustive small "
+          "trees of identical tags for the `!=` stack comparison; the class/registry tables exhaustively."),
     design="7/C05",
-    note=("CPython's tokenizer is not modelled: its events for each rendered text are recorded and compared with emitR; that "
-          "read(subst s)=s for text and attribute values is C09's theorem and is re-observed here per case. Entity substitution "
-          "functions other than substitute_xml enter the model as their graph on the strings of the case (computed by the real "
-          "code). normalise_idem / second_roundtrip_fixpoint are stated but not proved in Lean (the second round trip is checked "
-          "by the oracle and by the executable model per case); it is false in general because of the doctype newline (known "
-          "finding). XML flavour is built by hand (no lxml) and re-parsed with html.parser. Charset substitution in <meta> is C08's."),
-    technique="Lean 4 refinement proof (stack machine = structural recursion; balanced-block net effect for the re-parse) + differential correspondence + recorded tokenizer + direct Python oracle",
+    note=("CPython's tokenizer is not modelled: its events for each rendered text are recorded and compared with emitR (tag/"
+          "comment/declaration/PI tokenisation, CDATA-content mode); character data and attribute values are read back through "
+          "C09's reader models in the Lean theorems. Representable is conservative (see Props docstring); it is preserved by the "
+          "normal form (representable_normal_form), so parse_render_idempotent has no hypothesis about the intermediate tree. "
+          "DoctypeStable is necessary and sufficient for idempotence; the doctype newline makes the unrestricted statement "
+          "false (known finding). XML flavour is built by hand (no lxml) and re-parsed with html.parser; the XML declaration "
+          "BeautifulSoup.decode prepends and charset substitution in <meta> are C08's; pretty-printing is C14's. html5 is rendered "
+          "and compared but is outside the round-trip quantifier (its void form <br> is not modelled in emitR)."),
+    technique="Lean 4 refinement proofs (stack machine = structural recursion; balanced-block net effect for the re-parse; lockstep re-absorption for idempotence) + differential correspondence + recorded tokenizer + direct Python oracle",
 )
 
 CLASSES = ["NavigableString", "PreformattedString", "CData", "ProcessingInstruction", "XMLProcessingInstruction",
@@ -242,7 +256,7 @@ TAG_RE = re.compile(r"[a-z][-.a-z0-9:_]*\Z")
 ATTR_RE = re.compile(r"[a-z_:][-.a-z0-9:_]*\Z")
 
 
-def o_representable(forest, xml, raw=False):
+def o_representable(forest, xml):
     """-> None if representable, else the first reason (same predicate as the Lean `representableL`, written independently)"""
     for st in forest:
         if st[0] == "S":
@@ -252,11 +266,7 @@ def o_representable(forest, xml, raw=False):
             if c in TEXT_CLASSES:
                 if not s:
                     return "empty-string"
-                if raw and "</" in s:
-                    return "end-tag-in-raw-text"
                 continue
-            if raw:
-                return "special-in-raw-text"
             if c == "Comment":
                 if "--" in s or s.endswith("-") or s.startswith(">") or s.startswith("->"):
                     return "comment-dashes"
@@ -267,8 +277,6 @@ def o_representable(forest, xml, raw=False):
                 return "gt-in-" + c
         else:
             nm = o_full(st)
-            if raw:
-                return "element-in-raw-text"
             if st[5]:
                 return "hidden-element"
             if not TAG_RE.match(nm):
@@ -283,9 +291,21 @@ def o_representable(forest, xml, raw=False):
                 return "duplicate-attribute"
             if not all(ATTR_RE.match(k) for k in keys):
                 return "attribute-name"
-            r = o_representable(st[6], xml, nm in P_RAW)
-            if r:
-                return r
+            if nm in P_RAW:
+                # the reader takes the content of script/style as it stands: text only, and no `</` in what is written
+                for k in st[6]:
+                    if k[0] == "T":
+                        return "element-in-raw-text"
+                    if k[1] not in TEXT_CLASSES:
+                        return "special-in-raw-text" if k[1] != "PreformattedString" else "bare-preformatted"
+                    if not k[2]:
+                        return "empty-string"
+                if "</" in "".join(k[2] for k in st[6]):
+                    return "end-tag-in-raw-text"
+            else:
+                r = o_representable(st[6], xml)
+                if r:
+                    return r
     return None
 
 
@@ -419,7 +439,7 @@ def make_node(soup, spec, xml):
     if spec[0] == "S":
         return e["cls"][spec[1]](spec[2])
     _, mode, name, prefix, attrs, cbe, kids = spec
-    ad = {k: (list(v) if isinstance(v, list) else v) for k, v in attrs}
+    ad = {k: py_value(v) for k, v in attrs}
     if mode == "new_tag":
         t = soup.new_tag(name, prefix=prefix, attrs={k: v for k, v in ad.items() if v is not None})
     else:
@@ -430,6 +450,20 @@ def make_node(soup, spec, xml):
     for k in kids:
         t.append(make_node(soup, k, xml))
     return t
+
+
+def py_value(v):
+    """attribute value spec -> python object: str | None | list | {"py": "tuple"|"int"|"float", "v": …}"""
+    if isinstance(v, list):
+        return list(v)
+    if isinstance(v, dict):
+        if v["py"] == "tuple":
+            return tuple(v["v"])
+        if v["py"] == "int":
+            return int(v["v"])
+        if v["py"] == "float":
+            return float(v["v"])
+    return v
 
 
 def node_at(root, path):
@@ -467,7 +501,7 @@ def apply_op(soup, op, xml):
     elif kind == "insert_after":
         n.insert_after(make_node(soup, op[2], xml))
     elif kind == "setattr":
-        n[op[2]] = op[3]
+        n[op[2]] = py_value(op[3])
     elif kind == "delattr":
         if op[2] in n.attrs:
             del n[op[2]]
@@ -491,7 +525,19 @@ def build(recipe):
     for k in recipe["kids"]:
         soup.append(make_node(soup, k, xml))
     for op in recipe.get("ops", []):
+        if recipe.get("interleave"):
+            # render between the edits: anything a rendering caches must not survive the next edit
+            soup.decode()
+            soup.decode(formatter="html")
+            try:
+                node_at(soup, op[1]).decode(formatter=None)
+            except (IndexError, AttributeError):
+                pass
         apply_op(soup, op, xml)
+    for path, v in recipe.get("known_xml", []):
+        node_at(soup, path).known_xml = v
+    if "root_is_xml" in recipe:
+        soup.is_xml = recipe["root_is_xml"]
     return soup
 
 
@@ -524,6 +570,10 @@ def rand_text(r, hostile=0.0, lo=1, hi=5, ws=0.15):
 
 def rand_attr_value(r, hostile):
     k = r.random()
+    if k < 0.03:
+        return {"py": "tuple", "v": [rand_text(r, hostile, 0, 2, 0.05) for _ in range(r.randint(0, 3))]}
+    if k < 0.05:
+        return {"py": r.choice(["int", "float"]), "v": r.choice([0, 1, 7, -3, 10 ** 6])}
     if k < 0.12:
         return None
     if k < 0.3:
@@ -727,7 +777,7 @@ def gen_api_recipe(r, hostile):
         else:
             kids.append(rand_tag_spec(r, 0, budget, hostile, xml))
     ops = rand_ops(r, kids, hostile, xml)
-    return {"kind": "api", "xml": xml, "kids": kids, "ops": ops}
+    return {"kind": "api", "xml": xml, "kids": kids, "ops": ops, "interleave": r.random() < 0.5}
 
 
 M_TEXT = ["&amp;", "&lt;", "&gt;", "&quot;", "&apos;", "&#65;", "&#x41;", "&nosuch;", "&amp", "&copy", "&lt x", "&#128;", "&#0;",
@@ -831,13 +881,7 @@ def fmt_tok(f):
     return "none" if f is None else cps(f)
 
 
-def subst_table(st_root, f):
-    """graph of the registry's substitution function on the strings of the case (only for functions the model does not
-    define itself: 'html', 'html5', 'html5-4.12')"""
-    if f in (None, "minimal"):
-        return "-"
-    e = E()
-    fn = e["HF"].REGISTRY[f].entity_substitution
+def case_strings(st_root):
     strings = set()
 
     def walk(st):
@@ -852,7 +896,18 @@ def subst_table(st_root, f):
             for k in st[6]:
                 walk(k)
     walk(st_root)
-    return ";".join(f"{dots(s)}>{dots(fn(s))}" for s in sorted(strings)) or "-"
+    return sorted(strings)
+
+
+def subst_table(st_root, f):
+    """registry formatters: the model computes every registered substitution function itself (substitute_xml: Model/Render;
+    substitute_html / substitute_html5: C09's Model/Entities over the generated tables) — no graph is shipped"""
+    return "-"
+
+
+def graph_table(st_root, fn):
+    """graph of a user-supplied substitution callable on the strings of the case"""
+    return ";".join(f"{dots(s)}>{dots(fn(s))}" for s in case_strings(st_root)) or "-"
 
 
 def elements_preorder(root):
@@ -896,8 +951,14 @@ def render_checks(ctx, batch, recipe, root, st_root, stream):
             real = []
             for i in idxs:
                 el = els[i]
-                d = el.decode(formatter=f)
-                c = el.decode_contents(formatter=f)
+                try:
+                    d = el.decode(formatter=f)
+                    c = el.decode_contents(formatter=f)
+                except Exception as ex:
+                    ctx.violation(f"decode(formatter={f!r}) raised {type(ex).__name__}: {ex}",
+                                  case={"recipe": recipe, "element": i, "formatter": f, "op": "raises"},
+                                  expected="a rendering", observed=f"{type(ex).__name__}: {ex}", stream=stream)
+                    return None
                 real.append((i, d, c))
                 if f == "minimal":
                     if str(el) != d:
@@ -1075,8 +1136,30 @@ def roundtrip_checks(ctx, batch, recipe, root, el_index, el, stream, parsed):
                               case=dict(case, request=req), expected=f"harness: {reason or 'representable'}",
                               observed=f"model: repr={fields.get('repr')}", stream=stream, no_failing_input=True)
                 return
+            m_dst = fields.get("dst") == "1"
+            if m_dst == o_doctype_unstable(forest):
+                ctx.corr_disagreements += 1
+                ctx.violation("DoctypeStable: the model's predicate and the harness' known-finding classifier disagree",
+                              case=dict(case, request=req), expected=f"harness: unstable={o_doctype_unstable(forest)}",
+                              observed=f"model: dst={fields.get('dst')}", stream=stream, no_failing_input=True)
+            if m_dst and fields["norm2"] != fields["norm"]:
+                ctx.corr_disagreements += 1
+                ctx.violation("the executable normal form is not idempotent on a DoctypeStable forest (contradicts normalise_idem)",
+                              case=dict(case, request=req), expected=fields["norm"], observed=fields["norm2"], stream=stream,
+                              no_failing_input=True)
             if not m_repr:
                 return
+            tl = lambda forest_: sum((len(x[2]) if x[1] in TEXT_CLASSES else 0) if x[0] == "S" else tl(x[6]) for x in forest_)
+            if str(tl(got3) - tl(got)) != fields.get("grow"):
+                ctx.corr_disagreements += 1
+                ctx.violation("the text gained on the real second round trip is not the model's growth count (second_normalisation_growth)",
+                              case=dict(case, request=req, rendered=text), expected="model: grow=" + str(fields.get("grow")),
+                              observed=f"real: {tl(got3) - tl(got)}", stream=stream, no_failing_input=True)
+            if fields.get("repr2") != "1":
+                ctx.corr_disagreements += 1
+                ctx.violation("the normal form of a representable forest is not representable (contradicts representable_normal_form)",
+                              case=dict(case, request=req), expected="repr2=1", observed="repr2=" + str(fields.get("repr2")),
+                              stream=stream, no_failing_input=True)
             ctx.count("trip:model-compared")
             m_evs = merge_data([x for x in fields["emit"].split("|") if x])
             if m_evs != evs:
@@ -1124,6 +1207,9 @@ def check_tree(ctx, batch, recipe, stream, parsed, sub_elements=2, r=None):
         return
     ctx.count(f"{stream}:size:{min(size(st_root) // 5 * 5, 30)}+")
     els = render_checks(ctx, batch, recipe, root, st_root, stream)
+    if els is None:
+        ctx.case(None)
+        return
     oracle_direct(ctx, recipe, els, stream)
     reason = roundtrip_checks(ctx, batch, recipe, root, 0, root, stream, parsed)
     if r is not None and len(els) > 1:
@@ -1272,6 +1358,246 @@ def stream_corpus(ctx, batch):
         check_tree(ctx, batch, rc, "corpus", rc["kind"] == "parse", sub_elements=50, r=r)
 
 
+FN_KINDS = {"xml": 1, "html": 2, "html5": 3}
+
+
+def make_fn(name):
+    e = E()
+    if name == "xml":
+        return e["ES"].substitute_xml
+    if name == "html":
+        return e["ES"].substitute_html
+    if name == "html5":
+        return e["ES"].substitute_html5
+    if name == "upper":
+        return lambda s: s.upper()
+    if name == "brackets":
+        return lambda s: "[" + s + "]"
+    raise ValueError(name)
+
+
+def make_formatter_arg(desc):
+    """-> (python argument for decode(formatter=…), model token builder taking the element's struct)"""
+    e = E()
+    if desc[0] == "name":
+        k = desc[1]
+        return k, (lambda st: ("n:none" if k is None else "n:" + cps(k), "-"))
+    if desc[0] == "fn":
+        fn = make_fn(desc[1])
+        if desc[1] in FN_KINDS:
+            return fn, (lambda st: (f"c:{FN_KINDS[desc[1]]}", "-"))
+        return fn, (lambda st: ("c:9", graph_table(st, fn)))
+    _, lang, fname, vp, cd, eb = desc
+    fn = None if fname is None else make_fn(fname)
+    cls = {"html": e["HF"], "xml": e["XF"]}[lang]
+    obj = cls(entity_substitution=fn, void_element_close_prefix=vp, cdata_containing_tags=None if cd is None else set(cd),
+              empty_attributes_are_booleans=eb)
+    kind = 0 if fname is None else FN_KINDS.get(fname, 9)
+
+    def tok(st):
+        spec = (f"o:{kind}:{cps(obj.void_element_close_prefix or '')}:"
+                f"{';'.join(dots(x) for x in sorted(obj.cdata_containing_tags)) or '-'}:{int(bool(obj.empty_attributes_are_booleans))}")
+        return spec, (graph_table(st, fn) if kind == 9 else "-")
+    return obj, tok
+
+
+def rand_formatter_desc(r):
+    k = r.random()
+    if k < 0.4:
+        return ["name", r.choice(["minimal", "html", None, "html5", "html5-4.12", "nosuch", "xml", ""])]
+    if k < 0.65:
+        return ["fn", r.choice(["xml", "html", "html5", "upper", "brackets"])]
+    return ["obj", r.choice(["html", "xml"]), r.choice([None, "xml", "html", "html5", "upper"]),
+            r.choice(["/", "", " /", None, "//"]), r.choice([None, None, [], ["p"], ["script"], ["pre", "b", "style"]]),
+            r.random() < 0.4]
+
+
+def known_xml_chain(el):
+    chain, n = [], el
+    while n is not None:
+        chain.append(n.known_xml)
+        root = n
+        n = n.parent
+    return chain, bool(getattr(root, "is_xml", False))
+
+
+def stream_formatter_args(ctx, batch, n_trees):
+    """`decode(formatter=arg)` with every form of the argument (registry key incl. unknown ones -> KeyError, callable,
+    Formatter object with its own void prefix / cdata tags / boolean-attribute switch) on elements whose flavour is decided by
+    `known_xml` somewhere up the parent chain or by the root's `is_xml` attribute: formatter_for_name + _is_xml"""
+    e = E()
+    for t in range(n_trees):
+        r = ctx.rng("fmtargs", t)
+        recipe = gen_api_recipe(r, 0.0)
+        soup = build(recipe)
+        els = elements_preorder(soup)
+        settings = []
+        for i, el in enumerate(els):
+            if r.random() < 0.6:
+                path = []
+                n = el
+                while n.parent is not None:
+                    path.insert(0, n.parent.contents.index(n) if False else next(j for j, c in enumerate(n.parent.contents) if c is n))
+                    n = n.parent
+                settings.append([path, r.choice([None, None, True, False])])
+        recipe = dict(recipe, known_xml=settings, root_is_xml=r.random() < 0.5)
+        soup = build(recipe)
+        els = elements_preorder(soup)
+        if len(els) < 2:
+            continue
+        for i in sorted(r.sample(range(1, len(els)), min(3, len(els) - 1))):
+            el = els[i]
+            try:
+                st = struct(el)
+            except ValueError:
+                continue
+            chain, root_attr = known_xml_chain(el)
+            chain_tok = ".".join("N" if v is None else ("T" if v else "F") for v in chain) or "-"
+            for _ in range(3):
+                desc = rand_formatter_desc(r)
+                arg, tok = make_formatter_arg(desc)
+                try:
+                    real = "D:" + cps(el.decode(formatter=arg))
+                    if arg is None or isinstance(arg, str):
+                        c2 = el.decode_contents(formatter=arg)
+                        if not st[5] and el.contents and not real.endswith(cps(c2 + "</" + o_full(st) + ">")):
+                            ctx.violation("decode_contents(formatter) is not the contents part of decode(formatter)",
+                                          case={"recipe": recipe, "element": i, "formatter_desc": desc, "op": "fmtarg"},
+                                          expected=real, observed=c2, stream="fmtargs")
+                except KeyError:
+                    real = "KeyError"
+                a_tok, tbl = tok(st)
+                req = f"c05 top {int(root_attr)} {chain_tok} {a_tok} {tbl} {tree_tokens(st)}"
+                flav = "xml" if el._is_xml else "html"
+                ctx.count(f"fmtarg:{desc[0]}:{flav}:{'KeyError' if real == 'KeyError' else 'ok'}")
+
+                def on_reply(rep, real=real, req=req, desc=desc, i=i, recipe=recipe):
+                    if rep != real:
+                        ctx.corr_disagreements += 1
+                        u = lambda t: t if not t.startswith("D:") else ascii(uncps_local(t[2:]))
+                        ctx.violation("decode(formatter=arg): formatter resolution / rendering differs from the model",
+                                      case={"recipe": recipe, "element": i, "formatter_desc": desc, "op": "fmtarg", "request": req},
+                                      expected="model: " + u(rep), observed="real: " + u(real), model=rep, stream="fmtargs",
+                                      no_failing_input=True)
+                batch.add(req, on_reply)
+        ctx.case(None)
+
+
+def opt_tok(v):
+    return "N" if v is None else ("e" if v == "" else cps(v))
+
+
+def stream_string_output_ready(ctx, batch, n_trees):
+    """`string.output_ready(arg)` called directly on strings of every class (in trees with known_xml chains, and detached):
+    formatter=None, the signature default, registry keys incl. unknown ones, callables, Formatter objects"""
+    import inspect
+    e = E()
+    for t in range(n_trees):
+        r = ctx.rng("sor", t)
+        recipe = gen_api_recipe(r, 0.05)
+        soup = build(recipe)
+        tags = elements_preorder(soup)
+        settings = []
+        for el in tags[1:]:
+            if r.random() < 0.5:
+                path, n = [], el
+                while n.parent is not None:
+                    path.insert(0, next(j for j, c in enumerate(n.parent.contents) if c is n))
+                    n = n.parent
+                settings.append([path, r.choice([None, True, False])])
+        recipe = dict(recipe, known_xml=settings, root_is_xml=r.random() < 0.3)
+        if r.random() < 0.3:
+            recipe["known_xml"].append([[], None])
+        soup = build(recipe)
+        strings = [d for d in soup.descendants if isinstance(d, e["NS"])]
+        if r.random() < 0.3:
+            strings.append(e["cls"][r.choice(CLASSES)](rand_text(r, 0.1)))       # a detached string
+        for sidx, sobj in enumerate(strings[:6]):
+            cname = type(sobj).__name__
+            if cname not in CLASSES:
+                continue
+            chain, root_attr = known_xml_chain(sobj)
+            chain_tok = ".".join("N" if v is None else ("T" if v else "F") for v in chain) or "-"
+            pname = sobj.parent.name if sobj.parent is not None else None
+            text = str.__str__(sobj)
+            for trial in range(3):
+                if trial == 0:
+                    default = inspect.signature(type(sobj).output_ready).parameters["formatter"].default
+                    desc = ["default", default]
+                    call = lambda: sobj.output_ready()
+                    a_tok, tbl = ("None", "-") if default is None else ("n:" + cps(default), "-")
+                elif r.random() < 0.2:
+                    desc = ["none"]
+                    call = lambda: sobj.output_ready(None)
+                    a_tok, tbl = "None", "-"
+                else:
+                    desc = rand_formatter_desc(r)
+                    arg, tok = make_formatter_arg(desc)
+                    if arg is None:
+                        desc, a_tok, tbl = ["none"], "None", "-"
+                    else:
+                        a_tok, tbl = tok(("S", cname, text))
+                    call = lambda arg=arg: sobj.output_ready(arg)
+                try:
+                    real = "D:" + cps(call())
+                except KeyError:
+                    real = "KeyError"
+                req = f"c05 sor {int(root_attr)} {chain_tok} {a_tok} {tbl} {opt_tok(pname)} {CLASSES.index(cname)} {cps(text)}"
+                ctx.count(f"sor:{desc[0]}:{'preformatted' if cname not in TEXT_CLASSES else 'text'}:{'KeyError' if real == 'KeyError' else 'ok'}")
+
+                def on_reply(rep, real=real, req=req, desc=desc, cname=cname, text=text, pname=pname):
+                    if rep != real:
+                        ctx.corr_disagreements += 1
+                        u = lambda t: t if not t.startswith("D:") else ascii(uncps_local(t[2:]))
+                        ctx.violation("string.output_ready(arg) differs from the model",
+                                      case={"op": "sor", "class": cname, "text": text, "parent_name": pname, "formatter_desc": desc,
+                                            "request": req},
+                                      expected="model: " + u(rep), observed="real: " + u(real), model=rep, stream="sor",
+                                      no_failing_input=True)
+                batch.add(req, on_reply)
+        ctx.case(None)
+
+
+def stream_doctype_ids(ctx, batch, n):
+    """`Doctype.for_name_and_ids(name, pub_id, system_id)`: the string, its rendering, and its round trip"""
+    e = E()
+    D = e["cls"]["Doctype"]
+    for t in range(n):
+        r = ctx.rng("doctype", t)
+        pick = lambda: r.choice([None, None, "", "html", "-//W3C//DTD XHTML 1.0 Strict//EN", "x.dtd", rand_text(r, 0.0, 1, 3, 0.0)])
+        name, pub, sysid = pick(), pick(), pick()
+        d = D.for_name_and_ids(name, pub, sysid)
+        real = cps(str.__str__(d))
+        req = f"c05 doctype {opt_tok(name)} {opt_tok(pub)} {opt_tok(sysid)}"
+        out = d.output_ready()
+        if out != "<!DOCTYPE " + str.__str__(d) + ">\n" or type(d) is not D:
+            ctx.violation("Doctype.for_name_and_ids(...).output_ready() is not <!DOCTYPE …>\\n of its string",
+                          case={"op": "doctype", "args": [name, pub, sysid]}, expected="<!DOCTYPE " + str.__str__(d) + ">\n",
+                          observed=out, stream="doctype")
+        if ">" not in str.__str__(d):
+            back = parse(out)
+            got = [struct(c) for c in back.contents]
+            want = o_normalise([("S", "Doctype", str.__str__(d))])
+            ctx.count("doctype:roundtrip")
+            if got != want:
+                ctx.violation("a doctype made by for_name_and_ids does not come back from its rendering",
+                              case={"op": "doctype", "args": [name, pub, sysid]}, expected=ascii(want), observed=ascii(got),
+                              stream="doctype")
+
+        def on_reply(rep, real=real, req=req, args=(name, pub, sysid)):
+            if rep != real:
+                ctx.corr_disagreements += 1
+                ctx.violation("Doctype._string_for_name_and_ids differs from the model",
+                              case={"op": "doctype", "args": list(args), "request": req}, expected="model: " + rep,
+                              observed="real: " + real, model=rep, stream="doctype", no_failing_input=True)
+        batch.add(req, on_reply)
+        ctx.case(None)
+
+
+def uncps_local(t):
+    return "" if t in ("-", "") else "".join(chr(int(x)) for x in t.split(","))
+
+
 def stream_table(ctx, batch):
     """exhaustive over the generated tables: every string class x every parent kind, under every formatter of both
     registries (render_checks runs all of them), both flavours — so a changed PREFIX/SUFFIX/registry entry that breaks a
@@ -1317,17 +1643,20 @@ def run(ctx: Ctx):
     stream_corpus(ctx, batch)
     stream_small(ctx, batch)
     stream_table(ctx, batch)
+    stream_formatter_args(ctx, batch, ctx.n(400, 4000))
+    stream_string_output_ready(ctx, batch, ctx.n(250, 2500))
+    stream_doctype_ids(ctx, batch, ctx.n(300, 3000))
     # (i) parsed documents
-    n = ctx.n(2000, 18000)
+    n = ctx.n(1700, 18000)
     for i in range(n):
         r = ctx.rng("parsed", i)
         check_tree(ctx, batch, {"kind": "parse", "markup": gen_markup(r)}, "parsed", True, r=r)
-    n = ctx.n(700, 6000)
+    n = ctx.n(600, 6000)
     for i in range(n):
         r = ctx.rng("malformed", i)
         check_tree(ctx, batch, {"kind": "parse", "markup": gen_markup(r, malformed=True)}, "malformed", True, r=r)
     # (ii) API construction / edit histories, representable content
-    n = ctx.n(2500, 24000)
+    n = ctx.n(2100, 24000)
     for i in range(n):
         r = ctx.rng("api", i)
         check_tree(ctx, batch, gen_api_recipe(r, 0.0), "api", False, r=r)
@@ -1353,6 +1682,28 @@ def replay(path):
     E()
     v = json.load(open(path))
     c = v["case"]
+    if c.get("op") == "doctype":
+        d = E()["cls"]["Doctype"].for_name_and_ids(*c["args"])
+        print("for_name_and_ids", c["args"], "->", ascii(str.__str__(d)), "rendered", ascii(d.output_ready()))
+        if "request" in c:
+            rep = Driver().ask([c["request"]])[0]
+            print("model:", ascii(uncps_local(rep)))
+            return 0 if rep == cps(str.__str__(d)) else 1
+        back = [struct(x) for x in parse(d.output_ready()).contents]
+        print("re-parsed:", ascii(back))
+        return 0 if back == o_normalise([("S", "Doctype", str.__str__(d))]) else 1
+    if c.get("op") == "sor":
+        print("string.output_ready case (class, text, parent name, argument):", c["class"], ascii(c["text"]), c["parent_name"],
+              c["formatter_desc"])
+        print("expected:", v.get("expected"))
+        print("observed:", v.get("observed"))
+        s = E()["cls"][c["class"]](c["text"])
+        if c["formatter_desc"][0] in ("name", "default") and c["parent_name"] is None:
+            try:
+                print("detached string now:", ascii(s.output_ready(c["formatter_desc"][1])))
+            except KeyError:
+                print("detached string now: KeyError")
+        return 1
     if "recipe" not in c:
         print(json.dumps(c, indent=1)[:3000])
         return 1
@@ -1362,7 +1713,11 @@ def replay(path):
     f = c.get("formatter", "minimal")
     print("recipe:", ascii(json.dumps(c["recipe"]))[:1500])
     print("element:", c.get("element"), "formatter:", repr(f), "op:", c.get("op"))
-    text = el.decode(formatter=f)
+    try:
+        text = el.decode(formatter=f)
+    except Exception as ex:
+        print("decode raised:", type(ex).__name__, ex)
+        return 1
     print("rendered:", ascii(text))
     rc = 0
     if c.get("op") in ("roundtrip",):
@@ -1379,6 +1734,21 @@ def replay(path):
         print("third rendering:  ", ascii(text3))
         if got != want or text2 != text3:
             rc = 1
+    elif c.get("op") == "raises":
+        print("decode() returned normally")
+        rc = 0
+    elif c.get("op") == "fmtarg":
+        arg, tok = make_formatter_arg(c["formatter_desc"])
+        try:
+            real = "D:" + cps(el.decode(formatter=arg))
+        except KeyError:
+            real = "KeyError"
+        rep = Driver().ask([c["request"]])[0]
+        u = lambda t: t if not t.startswith("D:") else ascii(uncps_local(t[2:]))
+        print("formatter argument:", c["formatter_desc"])
+        print("model:", u(rep))
+        print("real: ", u(real))
+        rc = 0 if rep == real else 1
     elif c.get("op") == "detached":
         el.extract()
         after = el.decode(formatter=f)
